@@ -2046,6 +2046,11 @@ pub fn c13_plan(tier: Tier) -> Plan {
                     let seg = if rng.chance(1, 3) { remaining[i] } else { rng.range(1, remaining[i] as u64) as usize };
                     steps.push(Step::Send(i, seg));
                     remaining[i] -= seg;
+                    if conns[i].peer == Peer::StopReading && remaining[i] == 0 && rng.chance(1, 3) {
+                        // the stalled reader goes away for good while the server is blocked writing to it
+                        steps.push(Step::Quiesce);
+                        steps.push(if rng.chance(1, 2) { Step::Reset(i) } else { Step::Close(i) });
+                    }
                     if conns[i].peer == Peer::Faulty && (remaining[i] == 0 || rng.chance(1, 3)) {
                         steps.push(if rng.chance(1, 2) { Step::Reset(i) } else { Step::Close(i) });
                         remaining[i] = 0;
@@ -2228,6 +2233,12 @@ pub fn c15_plan(tier: Tier) -> Plan {
             }),
         });
     }
+    spaces.push(Space {
+        name: "R.socket-path (real filesystem)",
+        size: 5,
+        exhaustive: true,
+        gen: Box::new(|idx, _| Case::Fs(idx as u8)),
+    });
     Plan {
         spaces,
         rule: "L with the simulated clock: idle_timeout {0,1,2} s x stop flag {absent, present but never set, set before / during / after the connections} x pools {(1,1),(1,4),(2,2),(3,4)} x fast-CPU / slow-thread clock x connection histories {none; one short; arrival just before the idle deadline; long-lived across several deadlines; closing exactly at the deadline; streaming reply blocked on a full window when the flag is set; arrivals every 50 ms for 3 s after the flag; burst of connections then silence; client vanishing mid-message; signals arriving every 30 ms for 2.5 idle periods with nobody connected; signal storm around a long-lived connection} x seeded schedules; a second batch injects signals into select (EINTR) at random points. Oracles on simulated milliseconds: Timeout only with idle_timeout>0 and >= idle_timeout since the last accept, never while a connection is in service (fast-CPU mode), Ok only and always once the flag is set, no accept starting > 1 s after the flag takes a connection, listen returns only after every accepted connection was closed by its worker with complete replies, promptly (fast-CPU mode), and it does return.".into(),
@@ -2235,7 +2246,7 @@ pub fn c15_plan(tier: Tier) -> Plan {
         real: REAL_L.to_vec(),
         stub: {
             let mut s = STUB_L.to_vec();
-            s.push("socket-path removal (Listener::drop) is NOT exercised by the simulated listener");
+            s.push("socket-path removal (Listener::drop) cannot be exercised by the simulated listener (it has no path): that one clause is looked at outside the simulation, with the real Listener on the real filesystem (space R.socket-path, 5 address forms)");
             s
         },
         assumptions: vec![
@@ -2280,7 +2291,9 @@ fn life_case(cfg: &SvcCfg, rng: &mut Rng, hist: u64, idle: u64, stopm: u64, init
         2 => {
             // arrival just before the idle deadline
             conns.push(LConn::healthy(&echo(0)));
-            steps.extend([Step::Sleep(idle_ms - rng.range(1, 120)), Step::Connect(0), Step::Send(0, 10_000), Step::Sleep(rng.range(1, 300)), Step::HalfClose(0)]);
+            // (including the exact poll boundaries around the deadline)
+            let before = if rng.chance(1, 2) { *rng.pick(&[0u64, 1, 99, 100, 101, 199, 200]) } else { rng.range(1, 120) };
+            steps.extend([Step::Sleep(idle_ms.saturating_sub(before)), Step::Connect(0), Step::Send(0, 10_000), Step::Sleep(rng.range(1, 300)), Step::HalfClose(0)]);
         }
         3 => {
             // long-lived across several deadlines
